@@ -695,6 +695,27 @@ class NumpyFacade:
     round = around
     round_ = around
 
+    def power(self, a, b):
+        if has_sym(a) or has_sym(b):
+            f = _np.frompyfunc(lambda x, y: x ** y, 2, 1)
+            r = f(_o(a), _o(b))
+            return _wrap(r) if isinstance(r, _np.ndarray) and r.ndim > 0 else (r[()] if isinstance(r, _np.ndarray) else r)
+        return _np.power(a, b)
+
+    def triu(self, a, *args, **kw):
+        return _wrap(_np.triu(_np.asarray(a), *args, **kw))
+
+    def tril(self, a, *args, **kw):
+        return _wrap(_np.tril(_np.asarray(a), *args, **kw))
+
+    def mean(self, a, axis=None, **kw):
+        a = _obj(a)
+        if a.dtype != object:
+            return _np.mean(a, axis=axis, **kw)
+        if axis is None:
+            return _np.asarray(a).sum() / a.size
+        return _wrap(_np.asarray(a).sum(axis=axis) / a.shape[axis])
+
     def logical_and(self, a, b):
         return _normbool(_and(_o(_obj(a)), _o(_obj(b)))) if (has_sym(a) or has_sym(b)) else _np.logical_and(a, b)
 
